@@ -34,22 +34,26 @@ MOD_SRC = '''
 import functools
 
 def top(v):
+    w = v * 2
     x = v + 1
     return x
 
 class K:
     def meth(self, v):
+        w = v * 2
         x = v + 2
         return x
 
     class Inner:
         def im(self, v):
+            w = v * 2
             x = v + 3
             return x
 
 def make():
     k = 4
     def inner(v):
+        w = v * 2
         x = v + k
         return x
     return inner
@@ -64,6 +68,7 @@ def deco(fn):
 
 @deco
 def decorated(v):
+    w = v * 2
     x = v + 5
     return x
 '''
@@ -132,6 +137,13 @@ def build(case):
             mod = _module()
         target = get_fn(mod)
         env = vars(mod)
+        with NoTracing():
+            # every path starts from functions that have never been instrumented (no cached code variants):
+            # what a history compiles for the first time must not depend on the paths explored before it
+            for fn_ in [gf(mod) for _t, gf, _c, _o in PLACEMENTS.values()] + [mod.make]:
+                st_ = getattr(fn_, "__ptera_stack__", None)
+                if st_ is not None and st_.instrument_count == 0:
+                    del fn_.__ptera_stack__
         probes = {"name": None, "ref": None, "other": None}
         lists = {"name": [], "ref": []}
         nres = 0
@@ -158,7 +170,8 @@ def build(case):
                     assume(probes[kind] is None)
                     with NoTracing():
                         try:
-                            text = by_name if kind == "name" else refstring(target) + " > x"
+                            # the probe by reference focuses `w`, the probe by name `x`: two different capture sets
+                            text = by_name if kind == "name" else refstring(target) + " > w"
                             sel = select(text, env=env)
                             pr = probing(sel)
                             pr.__enter__()
@@ -171,7 +184,7 @@ def build(case):
                                     {"fp": f"{fpb}:activate-by-{kind}:{sit}:{type(err).__name__}"})
                         assume(False)
                     probes[kind] = pr
-                    pr.subscribe(lambda d, kind=kind: lists[kind].append(d["x"]))
+                    pr.subscribe(lambda d, kind=kind: lists[kind].append(d["x" if kind == "name" else "w"]))
                     if not twin:
                         require(sel.element.name is target, f"selector by {kind} resolved to another function object ({sit})",
                                 {"fp": f"{fpb}:activate-by-{kind}:{sit}:wrong-function"})
@@ -190,7 +203,7 @@ def build(case):
                     require(rv == v + off, "call returned a wrong value", {"fp": f"{fpb}:return-value"})
                     for k in lists:
                         new = lists[k][before[k]:]
-                        exp = [v + off] if probes[k] is not None else []
+                        exp = ([v + off] if k == "name" else [v * 2]) if probes[k] is not None else []
                         require(len(new) == len(exp) and all(a == b for a, b in zip(new, exp)),
                                 f"the probe activated by {k} did not receive exactly the binding of this call ({sit})",
                                 {"fp": f"{fpb}:events-by-{k}:{'extra' if len(new) > len(exp) else 'missing-or-wrong'}:{sit}"})
